@@ -4,7 +4,7 @@
 //! `Buffer` / `MutableBuffer` / `BooleanBuffer` values with standard and custom owners.
 //!
 //! Case line:  `C16 ahist <nslots> <op>;<op>;…`   (ops as in lean/ArrowModel/C16/Driver.lean)
-//! Answer: one group per step `<outcome>/<pool.used>/<owners dropped in this step>/<slots whose
+//! Answer: one group per step `<outcome>/<used() of pool 0.1.2>/<owners dropped in this step>/<slots whose
 //! visible content changed>` and finally the drop count of every owner.
 //!
 //! Besides producing the answer the harness checks the property directly on the
@@ -91,13 +91,22 @@ fn u8_array(b: Buffer) -> PrimitiveArray<UInt8Type> {
 
 struct Exec {
     slots: Vec<Slot>,
-    pool: TrackingMemoryPool,
+    /// the program's memory pools (index = pool id in `cm:<slot>:<pool>`)
+    pools: Vec<TrackingMemoryPool>,
     owners: Vec<Arc<AtomicUsize>>,
-    /// harness-side region ids → claimed? (only used for tags)
-    claimed: Vec<bool>,
+    /// harness-side region ids → pool currently holding its reservation (tags, and where to
+    /// restore the reservation after the known truncate finding)
+    claimed: Vec<Option<usize>>,
     tags: BTreeSet<String>,
     oracle: Vec<String>,
     good_ops: usize,
+}
+
+const NPOOLS: usize = 3;
+const HOWS: usize = 3;
+/// `used()` of every pool, `a.b.c`
+fn used_all(pools: &[TrackingMemoryPool]) -> String {
+    pools.iter().map(|p| p.used().to_string()).collect::<Vec<_>>().join(".")
 }
 
 fn pattern(seed: usize, len: usize) -> Vec<u8> {
@@ -151,7 +160,7 @@ impl Exec {
     fn new(n: usize) -> Self {
         Exec {
             slots: (0..n).map(|_| Slot::Empty).collect(),
-            pool: TrackingMemoryPool::default(),
+            pools: (0..NPOOLS).map(|_| TrackingMemoryPool::default()).collect(),
             owners: vec![],
             claimed: vec![],
             tags: BTreeSet::new(),
@@ -163,7 +172,7 @@ impl Exec {
         self.tags.insert(t.to_string());
     }
     fn new_rid(&mut self) -> usize {
-        self.claimed.push(false);
+        self.claimed.push(None);
         self.claimed.len() - 1
     }
     fn is_empty(&self, d: usize) -> bool {
@@ -295,7 +304,7 @@ impl Exec {
                 let (shared, offset) = (b.strong_count() > 1, b.ptr_offset() > 0);
                 match into_vec_roundtrip(b, t) {
                     Ok(nb) => {
-                        if self.claimed[r] {
+                        if self.claimed[r].is_some() {
                             self.tag("iv:ok:claimed");
                         }
                         let nr = self.new_rid();
@@ -348,21 +357,21 @@ impl Exec {
             })(),
             ("tr", 2) => (|| {
                 let (i, len) = (g(0)?, g(1)?);
-                let mut drift: Option<(usize, usize)> = None;
+                let mut drift: Option<(String, String)> = None;
                 let mut hit = false;
                 let r = match self.slots.get_mut(i) {
                     Some(Slot::Mut(m, r)) => {
-                        hit = self.claimed[*r];
-                        let before = self.pool.used();
+                        hit = self.claimed[*r].is_some();
+                        let before = used_all(&self.pools);
                         m.truncate(len);
-                        let after = self.pool.used();
+                        let after = used_all(&self.pools);
                         if hit && after != before {
                             // known finding: `truncate` resizes the reservation to `len` although
                             // the capacity is unchanged.  Report it on its own (oracle), then
                             // restore the capacity-based reservation so that the rest of the
                             // history is still compared exactly against the model.
                             drift = Some((before, after));
-                            m.claim(&self.pool);
+                            m.claim(&self.pools[self.claimed[*r].unwrap()]);
                         }
                         Some("ok")
                     }
@@ -373,7 +382,7 @@ impl Exec {
                 }
                 if let Some((b, a)) = drift {
                     self.oracle.push(format!(
-                        "KNOWN:finding:mutlen-claimed|MutableBuffer::truncate on a claimed buffer changed pool.used() from {} to {} although its capacity is unchanged",
+                        "KNOWN:finding:mutlen-claimed|MutableBuffer::truncate on a claimed buffer changed the pools' used() from {} to {} although its capacity is unchanged",
                         b, a
                     ));
                 }
@@ -463,23 +472,43 @@ impl Exec {
                 self.tag(if out == "ok" { "um:inplace" } else { "um:declined" });
                 Some(out)
             })(),
-            ("cm", 1) => (|| {
-                let i = g(0)?;
+            ("cm", 1 | 2 | 3) => (|| {
+                // cm:<slot>[:<pool>[:<how>]]  how: 0 Buffer::claim, 1 BooleanBuffer::claim, 2 Array::claim
+                let (i, p, how) = (g(0)?, if n.len() > 1 { g(1)? } else { 0 }, if n.len() > 2 { g(2)? } else { 0 });
+                if p >= NPOOLS {
+                    return None;
+                }
+                let pool = &self.pools[p];
                 let r = match self.slots.get(i) {
                     Some(Slot::Buf(b, r)) => {
-                        b.claim(&self.pool);
+                        match how {
+                            1 => {
+                                let bb = BooleanBuffer::new(b.clone(), 0, 8 * b.len());
+                                bb.claim(pool);
+                                self.tags.insert("cm:via-boolean".to_string());
+                            }
+                        2 => {
+                            // through an array sharing the buffer: `Array::claim`
+                            let a = u8_array(b.clone());
+                            Array::claim(&a, pool);
+                            self.tags.insert("cm:via-array".to_string());
+                        }
+                            _ => b.claim(pool),
+                        }
                         *r
                     }
                     Some(Slot::Mut(m, r)) => {
-                        m.claim(&self.pool);
+                        m.claim(pool);
                         *r
                     }
                     _ => return None,
                 };
-                if self.claimed[r] {
-                    self.tag("cm:reclaim");
+                match self.claimed[r] {
+                    Some(q) if q == p => self.tag("cm:reclaim:same-pool"),
+                    Some(_) => self.tag("cm:reclaim:other-pool"),
+                    None => {}
                 }
-                self.claimed[r] = true;
+                self.claimed[r] = Some(p);
                 self.tag("cm");
                 Some("ok")
             })(),
@@ -589,7 +618,7 @@ fn run_hist(nslots: usize, ops: &str) -> (String, String, Vec<String>) {
         } else if newly.len() == 1 {
             ex.tag("drop:owner");
         }
-        groups.push(format!("{}/{}/{}/{}", out, ex.pool.used(), show_list(&newly), show_list(&changed)));
+        groups.push(format!("{}/{}/{}/{}", out, used_all(&ex.pools), show_list(&newly), show_list(&changed)));
         // oracle 1: immutable views not consumed by this op are constant
         for i in 0..nslots {
             let now = match &ex.slots[i] {
@@ -622,8 +651,8 @@ fn run_hist(nslots: usize, ops: &str) -> (String, String, Vec<String>) {
     if ex.owners.iter().any(|c| c.load(Ordering::SeqCst) != 1) {
         ex.oracle.push("after dropping every handle some owner was not dropped exactly once".into());
     }
-    if ex.pool.used() != 0 {
-        ex.oracle.push(format!("after dropping every handle the pool still reports {} bytes", ex.pool.used()));
+    if ex.pools.iter().any(|p| p.used() != 0) {
+        ex.oracle.push(format!("after dropping every handle the pools still report {} bytes", used_all(&ex.pools)));
     }
     if shared_seen && ex.good_ops >= 5 {
         ex.tag("nt");
@@ -747,7 +776,7 @@ fn gen_hist(rng: &mut Rng) -> String {
             }
             if r < 66 && !bufs.is_empty() {
                 let i = *rng.pick(&bufs);
-                if !allow_findings && ex.claimed[ex.buf(i).unwrap().1] {
+                if !allow_findings && ex.claimed[ex.buf(i).unwrap().1].is_some() {
                     continue;
                 }
                 break format!("iv:{}:{}", i, rng.pick(&[1usize, 1, 2, 4, 8]));
@@ -755,7 +784,7 @@ fn gen_hist(rng: &mut Rng) -> String {
             if r < 76 && !muts.is_empty() {
                 let i = *rng.pick(&muts);
                 let (len, claimed) = match &ex.slots[i] {
-                    Slot::Mut(m, r) => (m.len(), ex.claimed[*r]),
+                    Slot::Mut(m, r) => (m.len(), ex.claimed[*r].is_some()),
                     _ => unreachable!(),
                 };
                 break match rng.below(4) {
@@ -768,7 +797,20 @@ fn gen_hist(rng: &mut Rng) -> String {
             }
             if r < 86 && (!bufs.is_empty() || !muts.is_empty()) {
                 let all: Vec<usize> = bufs.iter().chain(muts.iter()).copied().collect();
-                break format!("cm:{}", rng.pick(&all));
+                // prefer a handle whose region is already claimed half of the time, so that
+                // re-claims into the same and into a different pool (through clones / slices of
+                // the same region) are frequent
+                let rid = |ex: &Exec, i: usize| match &ex.slots[i] {
+                    Slot::Buf(_, r) | Slot::Mut(_, r) => *r,
+                    _ => usize::MAX,
+                };
+                let again: Vec<usize> = all.iter().copied().filter(|i| ex.claimed[rid(&ex, *i)].is_some()).collect();
+                let i = if !again.is_empty() && rng.bool() { *rng.pick(&again) } else { *rng.pick(&all) };
+                let p = match ex.claimed[rid(&ex, i)] {
+                    Some(q) if rng.chance(1, 3) => q,
+                    _ => rng.usize(NPOOLS),
+                };
+                break format!("cm:{}:{}:{}", i, p, rng.usize(HOWS));
             }
             if bufs.len() >= 2 {
                 let i = *rng.pick(&bufs);
